@@ -71,7 +71,7 @@ def build(data, pfx="", maxn=5, allow_include=True):
     levels = []
     for i in range(n):
         lv = {"defs": {}, "attrs": {}, "body": [], "blocks": {}, "page": g.chance(40), "inherit": None,
-              "dir": g.pick(["", "", "a/", "b/"]) if i else ""}
+              "dir": g.pick(["", "", "a/", "b/"]) if i else "", "pagekw": g.chance(35)}
         for d in DEFS:
             if g.chance(45):
                 lv["defs"][d] = None
@@ -287,7 +287,8 @@ def emit_level(case, i, uris):
     elif inh == "dynnone":
         src.append('<%inherit file="${context.get(\'dynnone\') or None}"/>')
     if lv["page"]:
-        src.append("<%page args=\"x='dx'\"/>")
+        # (optionally with a catch-all of its own: named blocks are handed the extra page arguments whatever it is called)
+        src.append("<%%page args=\"x='dx'%s\"/>" % (", **pkw" if lv.get("pagekw") else ""))
     if lv["attrs"]:
         src.append("<%!\n" + "".join("    %s = %r\n" % kv for kv in sorted(lv["attrs"].items())) + "%>")
     for d in sorted(lv["defs"]):
